@@ -267,6 +267,8 @@ class DPDA(pda.PDA):
         )
 
         yield current_configuration
+        if self._has_accepted(current_configuration):
+            return
         while current_configuration.remaining_input or self._has_lambda_transition(
             current_configuration.state, current_configuration.stack.top()
         ):
